@@ -235,6 +235,9 @@ def gen_case(rng):
                     if rng.random() < 0.25:  # a valid remark that merely mentions a word of the ignorable lines
                         rem = {"text": "remark " + rng.choice(["see description below", "old rule, ignore it", "no statistics here",
                                                                "description of the statistics", "ignore "]).strip() + f" u{idx}"}
+                    if rng.random() < 0.08:  # remarks that look like counters pasted from show output (still remarks)
+                        rem = {"text": "remark " + rng.choice(["(12 matches)", "[match=12]", "(1 match)", f"rule u{idx} (7 matches)",
+                                                               f"web servers u{idx} [match=3]"])}
                     lines.append([rem["text"], "valid", "remark", ""])
                 elif acl_type == "standard":
                     addr = rng.choice(["any", f"host 10.0.{idx}.1", f"10.{idx}.0.0 0.0.255.255"])
@@ -305,7 +308,17 @@ def run(ctx) -> None:
     _UNIQ["n"] = ctx.shard * 1000000
     n_max = {"quick": 2500, "thorough": 40000}[ctx.tier]
     done = 0
+    import cisco_acl  # pylint: disable=import-outside-toplevel
+
     while done < n_max and not ctx.expired():
+        if done % 40 == 7:
+            # other library calls in between (one that is refused, one that succeeds): reporting afterwards works as before
+            for kw in ({"srcports": "21-22", "line": "permit tcp any range 1 5 any"}, {"dstports": "80,443", "line": "permit tcp any any"},
+                       {"dstports": "1-3", "line": "permit ip any any"}):
+                try:
+                    cisco_acl.range_ports(**kw)
+                except (ValueError, TypeError):
+                    ctx.count("refused_calls_in_between")
         case = gen_case(rng)
         f0 = ctx.counters.get("constructions_failed_whole", 0)
         execute(ctx, case)
